@@ -18,7 +18,7 @@ def run(res, replay=None):
                 "whose run consulted the exact predicate (or a predicate tuple)")
     import props.c10 as c10
     rng = C.Rng(seed * 6007 + 9)
-    wd = os.path.join(C.CACHE, "run", "C11")
+    wd = C.rundir("C11")
     os.makedirs(wd, exist_ok=True)
     allc = c10.gen_insphere(rng, "quick")
     # a balanced share of every family (co-spherical exact / +-1 / rotated, coplanar, repeated, extremes, random)
